@@ -77,8 +77,10 @@ def run(ctx):
                 "least one texture.")
     bins = tc.both_profiles(ctx)
     env = {"VERIF_TIER": ctx.tier}
-    n_lists, n_place = ctx.pick((4, 12), (8, 122))      # placements summed over the four containers
-    n_cases = n_lists * n_place
+    # texture lists (3DS containers, TPL) x placements (CTPK + BCH + CGFX, TPL)
+    l3, lt = ctx.pick((9, 6), (19, 13))
+    p3, pt = ctx.pick((9, 3), (104, 18))
+    n_cases = l3 * p3 + lt * pt
     # 1. laws on the model
     r = ctx.tlc("MC_TexContainers", "MC_TexContainers.cfg", env=env, workers=tc.TLC_WORKERS)
     if r.distinct < n_cases + 1:
@@ -119,8 +121,10 @@ def run(ctx):
     ctx.extra["profiles_identical"] = same
     ctx.exhaustive = True
     ctx.assumptions += [
-        "bounded model: %d texture lists (0..%d textures, all nine 3DS formats / CI8 palette images, ASCII and non-ASCII names) x %d "
-        "placements (all containers together)" % (n_lists, 6, n_place),
+        "bounded model: %d texture lists for the 3DS containers / %d for TPL (0..6 textures, all nine 3DS formats / CI8 palette "
+        "images; mixed lists and same-shape lists that differ in content only; names of 0..257%s stored bytes with a "
+        "multi-byte character straddling offsets 32/64/128/256) x %d placements (CTPK+BCH+CGFX) / %d (TPL)"
+        % (l3, lt, "" if ctx.quick() else " and 700", p3, pt),
         "layouts follow the documented formats where documented and otherwise the de-facto layout the readers walk; CGFX "
         "self-relative offsets point forwards; BCH compatibility byte 7 or 0x22; BCH / CGFX names are UTF-8, CTPK names Shift-JIS",
         "a TPL texture's payload is its image data: cutting only the palette leaves the outcome open",
